@@ -5,6 +5,8 @@ import (
 	"go/constant"
 	"go/token"
 	"go/types"
+	"os"
+	"sort"
 	"strings"
 
 	"golang.org/x/tools/go/ssa"
@@ -26,9 +28,11 @@ func checkC17(p *Prog, r *Report) {
 	r.rule("C17.get-returns-stored: SoftResource.Get returns GetID() for \"id\", the value found in the data map under the key for fields of the type, and nil otherwise - nothing is transformed on the way out")
 	r.rule("C17.set-stores-given: SoftResource.Set stores the very value it was given (or the kind's typed nil for an untyped nil on a nullable attribute) and writes nothing reachable from that value (mod analysis: no write rooted at the value parameter); Wrapper.setField hands reflect.Value.Set exactly reflect.ValueOf(v) (or the zero value of the field's type for nil)")
 	r.rule("C17.new-pure / C17.new-result: Type.New stores nothing into its receiver (a memoised constructor would travel with Type.Copy and value copies to derived types) and returns either the receiver's NewFunc() or a newly allocated SoftResource whose Type is the receiver")
+	r.rule("C17.build-wrap (shared with C20.sibling-agreement): for the same answers about each struct field BuildType and Wrap record the same attributes and relationships (kind, nullability, cardinality, target, inverse), so a wrapped struct and a soft resource of the built type expose the same fields")
+	r.rule("C17.not-found-panic (shared with C20): Wrapper.getField / setField panic only for an empty key, a value of another type, or after an exhaustive scan of the struct's fields found no such json tag, so Get and Set of a declared field never panic")
 	r.rule("C17.id: both implementations special-case \"id\" in Get and Set (Get returns GetID(), Set stores the string and returns)")
 	r.rule("C17.tag-agreement: Wrapper.getField and setField locate the field by comparing the key with the json tag")
-	r.rule("C17.equal (scenario evaluation of Equal): with one to-many relationship whose two values differ, Equal returns false unless both are empty - in particular when exactly one of them is empty; EqualStrict is the ID comparison followed by Equal")
+	r.rule("C17.equal (scenario evaluation of Equal): with one to-many relationship whose two values differ, Equal returns false unless both are empty - in particular when exactly one of them is empty; EqualStrict is the ID comparison followed by Equal; likewise with one attribute whose two values are not DeepEqual, Equal returns false unless BOTH values print as <nil> (each side decided separately, so a test that reads the same side twice is seen)")
 	r.rule("C17.equal-names (merge-join key check): where Equal walks two name-sorted lists in lock-step, the names at the same position are compared before the values")
 	r.assume("reflect.Value.Set/Interface store and return the value they are given; reflect.DeepEqual is value equality")
 	r.notCovered("reflexivity and symmetry of the equality helpers as value-level laws; arbitrary Set histories on a Wrapper beyond the single store (delegated to reflect)")
@@ -38,6 +42,9 @@ func checkC17(p *Prog, r *Report) {
 	checkSetGate(p, r, kt)
 	checkZeroFill(p, r)
 	checkTypeNew(p, r)
+	checkNotFoundPanics(p, r, "C17")
+	nBW := r.importRules(func(r2 *Report) { checkBuildWrapAgreement(p, r2) }, "C17.build-wrap", "C20.sibling-agreement")
+	r.floor("imported BuildType/Wrap agreement obligations", nBW, 2)
 	checkSoftGetSet(p, r)
 	checkWrapperGetSet(p, r)
 	checkEqualHelpers(p, r)
@@ -399,8 +406,112 @@ func checkEqualHelpers(p *Prog, r *Report) {
 			fmt.Sprintf("two resources whose to-many relationship values differ (first non-empty=%v, second non-empty=%v) compare as %v on %d paths; expected %v", sc.l1, sc.l2, got, n, sc.want))
 	}
 
+	// scenario evaluation of the attribute comparison: one attribute whose two
+	// values are not DeepEqual; "prints as <nil>" decided per side
+	for _, sc := range []struct {
+		n1, n2 bool
+		want   bool
+	}{{false, false, false}, {true, false, false}, {false, true, false}, {true, true, true}} {
+		got, n := evalEqualAttr(p, eq, sc.n1, sc.n2)
+		key := fmt.Sprintf("Equal:attribute:differ:nil(%v,%v)", sc.n1, sc.n2)
+		good := n > 0 && len(got) == 1 && got[0] == fmt.Sprint(sc.want)
+		r.decide(good, "C17.equal", key, p.pos(eq.Pos()), fmt.Sprintf("%v on %d paths", sc.want, n),
+			fmt.Sprintf("two resources with an attribute whose values differ (first prints as <nil>=%v, second=%v) compare as %v on %d paths; expected %v: Equal holds between resources that differ in a field value, or is not symmetric", sc.n1, sc.n2, got, n, sc.want))
+	}
+
 	// merge-join key check
 	checkMergeJoinNames(p, r, eq)
+}
+
+// evalEqualAttr: types, names and relationships agree; one attribute whose
+// values are not DeepEqual; whether each side's value prints as "<nil>" is
+// given.
+func evalEqualAttr(p *Prog, eq *ssa.Function, nil1, nil2 bool) ([]string, int) {
+	in := &interp{p: p, f: eq, maxPaths: 30000, maxVisit: 2, structuralNames: true, inline: smallHelper}
+	in.callHook = func(st *istate, c *ssa.Call, args []*aval) *aval {
+		cc := c.Common()
+		if sc := cc.StaticCallee(); sc != nil {
+			switch fullName(sc) {
+			case "reflect.DeepEqual":
+				if strings.Contains(args[0].String(), ".([]string)") || strings.Contains(args[1].String(), ".([]string)") {
+					return boolv(true)
+				}
+				st.notes = append(st.notes, "attr-compared")
+				return boolv(false)
+			case "sort.Slice":
+				return &aval{k: aNil}
+			case "fmt.Sprintf":
+				// name the printed value (the variadic slice hides it)
+				if len(cc.Args) == 2 {
+					if sl, ok := cc.Args[1].(*ssa.Slice); ok {
+						if al, ok := sl.X.(*ssa.Alloc); ok {
+							for _, ref := range referrers(al) {
+								if ia, ok := ref.(*ssa.IndexAddr); ok {
+									for _, r2 := range referrers(ia) {
+										if stv, ok := r2.(*ssa.Store); ok {
+											return symv("fmt.Sprintf("+in.get(st, stv.Val).String()+")", types.Typ[types.String])
+										}
+									}
+								}
+							}
+						}
+					}
+				}
+			}
+		}
+		return nil
+	}
+	in.binopHook = func(st *istate, x *ssa.BinOp, a, b *aval) *aval {
+		as := a.String()
+		if strings.Contains(as, "Sprintf") && (x.Op == token.EQL || x.Op == token.NEQ) {
+			is1 := strings.Contains(as, "r1.Get") || strings.Contains(as, "invoke r1")
+			is2 := strings.Contains(as, "r2.Get") || strings.Contains(as, "invoke r2")
+			if is1 == is2 {
+				return nil
+			}
+			isNil := nil2
+			if is1 {
+				isNil = nil1
+			}
+			return boolv(isNil == (x.Op == token.EQL))
+		}
+		if x.Op == token.NEQ {
+			if strings.Contains(as, ".Name") || strings.Contains(as, "len(") || strings.Contains(as, ".ToOne") || strings.Contains(as, ".(string)") {
+				return boolv(false)
+			}
+		}
+		return nil
+	}
+	outs := in.run(map[*ssa.Parameter]*aval{eq.Params[0]: symv("r1", eq.Params[0].Type()), eq.Params[1]: symv("r2", eq.Params[1].Type())})
+	set := map[string]bool{}
+	n := 0
+	for _, o := range outs {
+		if o.loop || o.panics || o.ret == nil {
+			continue
+		}
+		asked := false
+		for _, nt := range o.notes {
+			if nt == "attr-compared" {
+				asked = true
+			}
+		}
+		if !asked {
+			continue
+		}
+		n++
+		if len(o.results) == 1 {
+			set[o.results[0].String()] = true
+		}
+		if os.Getenv("DBGC17") != "" {
+			fmt.Fprintf(os.Stderr, "nil(%v,%v) -> %v decided=%v\n", nil1, nil2, o.results[0], o.decided)
+		}
+	}
+	var out []string
+	for s := range set {
+		out = append(out, s)
+	}
+	sort.Strings(out)
+	return out, n
 }
 
 // evalEqualToMany: all attribute/type comparisons succeed; one to-many
